@@ -454,11 +454,82 @@ func init() {
 			}
 		}, nil
 	}
+	// one Evidence reused many times (counters of 8 and 16 bits wrap), the last input being an altered token
+	Scenarios["c02.many-reuses"] = func() (choice.Scenario, func() any) {
+		s := c02MakeSeed("ES256", 1, 0)
+		alt := append([]byte{}, s.tok...)
+		alt[bytes.Index(alt, s.view.payload)+len(s.view.payload)-1] ^= 1
+		return func(c *choice.Ctx) {
+			n := []int{1, 254, 255, 256, 257, 65534, 65535, 65536, 65537}[c.Choose("further-uses", 9)]
+			how := c.Choose("use", 2)
+			ev, err := psatoken.DecodeEvidenceFromCOSE(append([]byte{}, s.tok...))
+			if err != nil || ev.Verify(s.key.Pub) != nil {
+				return
+			}
+			for i := 0; i < n-1; i++ {
+				if how == 0 {
+					_ = ev.UnmarshalCOSE(s.tok)
+				} else {
+					_, _ = ev.Sign(s.key.Signer())
+				}
+			}
+			c02stats.StateStr(fmt.Sprint("many-reuses", n, how))
+			c02stats.Trans.Add(int64(n))
+			if err := ev.UnmarshalCOSE(append([]byte{}, alt...)); err != nil {
+				return
+			}
+			if ev.Verify(s.key.Pub) == nil {
+				c.Failf(fmt.Sprintf("C02:modified-verifies:after-%d-reuses", n), "an Evidence verified once and then reused %d times verifies a token with an altered payload", n)
+			}
+		}, nil
+	}
+	// an Evidence that already has claims attached is given envelopes that lack a payload / an algorithm / a signature
+	Scenarios["c02.incomplete-envelope-on-used-evidence"] = func() (choice.Scenario, func() any) {
+		s := c02MakeSeed("ES256", 1, 0)
+		return func(c *choice.Ctx) {
+			var mut []byte
+			what := ""
+			switch c.Choose("envelope", 5) {
+			case 0:
+				mut, what = mcbor.Encode(mcbor.Tg(18, mcbor.A(mcbor.B(s.view.prot), mcbor.M(), mcbor.Null(), mcbor.B(s.view.sig)))), "payload-null"
+			case 1:
+				sig := rawSign(s.key, "ES256", s.view.prot, nil)
+				mut, what = mcbor.Encode(mcbor.Tg(18, mcbor.A(mcbor.B(s.view.prot), mcbor.M(), mcbor.Null(), mcbor.B(sig)))), "payload-null-signed-as-detached"
+			case 2:
+				mut, what = envelope(s.view.prot, nil, nil, s.view.sig), "payload-empty"
+			case 3:
+				mut, what = envelope(nil, nil, s.view.payload, s.view.sig), "no-algorithm"
+			case 4:
+				mut, what = envelope(s.view.prot, nil, s.view.payload, nil), "no-signature"
+			}
+			ev := &psatoken.Evidence{}
+			switch c.Choose("evidence-state", 3) {
+			case 1:
+				x, _ := realise(s.abs)
+				if ev.SetClaims(x) != nil {
+					return
+				}
+			case 2:
+				if ev.UnmarshalCOSE(append([]byte{}, s.tok...)) != nil || ev.Verify(s.key.Pub) != nil {
+					return
+				}
+			}
+			c02stats.State(mut)
+			c02stats.Trans.Add(2)
+			if err := ev.UnmarshalCOSE(append([]byte{}, mut...)); err != nil {
+				return
+			}
+			if ev.Verify(s.key.Pub) == nil {
+				c.Failf("C02:verifies-incomplete:"+what+":used-evidence", "an envelope with %s was decoded by an Evidence that already held claims and verifies", what)
+			}
+		}, nil
+	}
 	// the key object the caller passes may be reused for another key afterwards: the verdict follows the key's value
 	Scenarios["c02.key-object-reused"] = func() (choice.Scenario, func() any) {
-		seeds := map[string]*c02Seed{}
+		seeds, seeds2 := map[string]*c02Seed{}, map[string]*c02Seed{}
 		for _, alg := range fixtures.AlgNames {
 			seeds[alg] = c02MakeSeed(alg, 1, 0)
+			seeds2[alg] = c02MakeSeed(alg, 2, 0)
 		}
 		return func(c *choice.Ctx) {
 			alg := fixtures.AlgNames[c.Choose("alg", len(fixtures.AlgNames))]
@@ -498,6 +569,26 @@ func init() {
 			want1, want2 := first == 0, first == 1
 			if (r1 == nil) != want1 {
 				c.Failf("C02:key-object:first-verdict:"+alg, "Verify=%v, want success=%v", r1, want1)
+			}
+			// a token signed by the OTHER key, verified with a fresh object holding the key that was seen first
+			if ev2, err := psatoken.DecodeEvidenceFromCOSE(append([]byte{}, seeds2[alg].tok...)); err == nil {
+				var fresh crypto.PublicKey
+				switch ka := s.key.Pub.(type) {
+				case *ecdsa.PublicKey:
+					k := *ka
+					fresh = &k
+				case *rsa.PublicKey:
+					k := *ka
+					fresh = &k
+				case ed25519.PublicKey:
+					fresh = append(ed25519.PublicKey{}, ka...)
+				}
+				if ev2.Verify(fresh) == nil {
+					c.Failf("C02:verifies-with-other-key:key-object-reused:"+alg, "a token signed by key 2 verifies with a fresh object holding key 1 after a key object was reused")
+				}
+				if ev2.Verify(other.Pub) != nil {
+					c.Failf("C02:genuine-token-stops-verifying:key-object-reused:"+alg, "the token of key 2 no longer verifies with key 2")
+				}
 			}
 			if (r2 == nil) != want2 {
 				c.Failf(fmt.Sprintf("C02:key-object-reused:%s:second-should-succeed=%v", alg, want2), "the same key object, now holding %s: Verify=%v, want success=%v", map[bool]string{true: "the signer's key", false: "another key"}[want2], r2, want2)
@@ -590,6 +681,8 @@ func init() {
 		exploreChoice(r, "c02.evidence-copies", -1, dl)
 		exploreChoice(r, "c02.key-object-reused", -1, dl)
 		exploreChoiceOpts(r, "c02.checksum-collisions", -1, dl, 1)
+		exploreChoice(r, "c02.many-reuses", -1, dl)
+		exploreChoice(r, "c02.incomplete-envelope-on-used-evidence", -1, dl)
 		if !thorough(r) {
 			for _, alg := range fixtures.AlgNames {
 				exploreChoice(r, "c02.flip."+alg, 2, dl) // claims-set 0: all flips, truncations, substitutions; others: only the default mutation
